@@ -62,6 +62,9 @@ def bonds_menu(kind, natom, types):
     """Bond arrays (0-based indices, type)."""
     if kind == "none" or natom < 2:
         return None
+    if kind == "last-atoms":
+        rows = [[natom - 2, natom - 1, types[0]]] + ([[natom - 3, natom - 1, types[-1]], [0, natom - 1, types[len(types) // 2]]] if natom > 2 else [])
+        return np.array(rows, dtype=int)
     n = {"one": 1, "few": 3, "nine": 9, "ten": 10, "99": 99, "100": 100, "101": 101, "all-types": len(types), "hub": min(natom - 1, 9), "chain": natom - 1}[kind]
     rows = []
     if kind == "hub":
@@ -219,7 +222,7 @@ class SDF(Spec):
         ("elements", ["OHH", "all-Z", "two-letter"]),
         ("coords", ["small", "negative", "wide", "tiny"]),
         _title_axis(),
-        ("bonds", ["none", "one", "few", "nine", "ten", "99", "100", "101", "all-types", "hub", "chain", "empty-array"]),
+        ("bonds", ["last-atoms", "none", "one", "few", "nine", "ten", "99", "100", "101", "all-types", "hub", "chain", "empty-array"]),
     ]
 
     def build(self, case, seed):
@@ -260,7 +263,7 @@ class MOL2(Spec):
         ("elements", ["OHH", "all-Z", "two-letter"]),
         ("coords", ["small", "negative", "wide", "tiny"]),
         _title_axis(),
-        ("bonds", ["none", "one", "few", "ten", "100", "all-types", "hub", "chain"]),
+        ("bonds", ["last-atoms", "none", "one", "few", "ten", "100", "all-types", "hub", "chain"]),
         ("charges", ["none", "mol2charges", "other-key-only"]),
         ("attypes", ["none", "given"]),
     ]
@@ -308,7 +311,7 @@ class PDB(Spec):
         ("elements", ["OHH", "all-Z", "two-letter"]),
         ("coords", ["small", "negative", "wide", "tiny"]),
         _title_axis(),
-        ("bonds", ["none", "one", "few", "ten", "hub", "chain", "last-atoms"]),
+        ("bonds", ["last-atoms", "none", "one", "few", "ten", "hub", "chain"]),
         ("atffparams", ["none", "attypes", "restypes+resnums", "all"]),
         ("extra", ["none", "occupancies+bfactors", "chainids", "compound", "all"]),
     ]
@@ -320,12 +323,9 @@ class PDB(Spec):
         kw = dict(atnums=elements(case["elements"], n, seed), atcoords=coords_angstrom(case["coords"], n, seed) * ANG)
         if case["title"] is not None:
             kw["title"] = case["title"]
-        if case["bonds"] == "last-atoms" and n >= 3:
-            kw["bonds"] = np.array([[n - 3, n - 2, 8], [n - 2, n - 1, 8], [0, n - 1, 8]])
-        elif case["bonds"] != "last-atoms":
-            bo = bonds_menu(case["bonds"], n, [8])
-            if bo is not None:
-                kw["bonds"] = bo
+        bo = bonds_menu(case["bonds"], n, [8])
+        if bo is not None:
+            kw["bonds"] = bo
         ff = {}
         if case["atffparams"] in ("attypes", "all"):
             pool = ["CA", "N", "O", "HB2", "OXT", "C1'"]
